@@ -71,6 +71,13 @@ inductive Piece where
 
 def fmtFloat (bits : UInt64) : Bytes := Printer.fmtFloatLit (fun b => F64.format ⟨b⟩) bits
 
+/-- the FloatNode case of `walk` (2b9928c): a float without a decimal spelling — it can only come from a global — is
+    written as JavaScript names it; every other one as FloatNode.String -/
+def jsFloat (bits : UInt64) : Bytes :=
+  if (⟨bits⟩ : F64).isNaN then b!"NaN"
+  else if (⟨bits⟩ : F64).isInf then (if (⟨bits⟩ : F64).sign then b!"-Infinity" else b!"Infinity")
+  else fmtFloat bits
+
 def sigTail : Bytes := b!"(opt_data, opt_sb, opt_ijData) {"
 
 def Piece.print : Piece → Bytes
@@ -80,7 +87,7 @@ def Piece.print : Piece → Bytes
   | .qname b => b
   | .es6name b => es6Identifier b
   | .int v => F64.intDigits v
-  | .float bits => fmtFloat bits
+  | .float bits => jsFloat bits
   | .header false n => n ++ b!" = function" ++ sigTail
   | .header true n => b!"export function " ++ es6Identifier n ++ sigTail
   | .comment b => b
@@ -740,6 +747,15 @@ mutual
         decIndent
         indentP; fx b!"}"; nl
         popScope
+        -- no iteration happened: the {ifempty} block, outside the loop variable's scope (2e1528d)
+        (match ifEmpty with
+          | some ie => do
+            indentP; fx b!"if ("; emit (.ident varIndex); fx b!" == 0) {"; nl
+            incIndent
+            walkBlock ie
+            decIndent
+            indentP; fx b!"}"; nl
+          | none => pure ())
       | none => do
         -- visitForeach: only the loop body is in the scope of the loop variable
         let listJs ← block (walkExpr sk o list)
